@@ -68,6 +68,16 @@ class FnT(T):
         return V.Func(z3.Function(name, *[sort_of(s) for s in self.arg_sorts], sort_of(self.ret_sort)), name=name)
 
 
+class ClassT(T):
+    """the `cls` parameter of a classmethod"""
+
+    def __init__(self, name):
+        self.name = name
+
+    def fresh(self, name):
+        return V.PyConst(("class", self.name))
+
+
 class OptT(T):
     def __init__(self, elem):
         self.elem = elem
@@ -166,7 +176,8 @@ class Contract:
                  raises=None, uses=(), lemmas=(), calls=None, serves=(), pure=False, trusted=False, notes="",
                  closure=None, self_type=None, modifies=(), effects=None, coerce=None,
                  export_lemmas=True, is_property=False, locals=None, frame_check=True, static=False,
-                 returns_expr=None, ghost_returns=None, value_self=False, binds=None):
+                 returns_expr=None, ghost_returns=None, value_self=False, binds=None,
+                 is_classmethod=False):
         self.qualname = qualname
         self.params = params                      # dict name -> T (in signature order)
         self.returns = returns
@@ -201,7 +212,8 @@ class Contract:
         self.returns_expr = returns_expr    # the result is this existing object (alias), e.g. 'self._categories'
         self.value_self = value_self        # `self` is a record by value that the method updates (constructor / setter)
         self.ghost_returns = ghost_returns or {}
-        self.binds = binds or {}            # 'self.field' -> spec text: the field holds exactly this value on return   # ghost outputs (name -> sort) a caller may bind with a hook 'x = ghost(name)'
+        self.binds = binds or {}
+        self.is_classmethod = is_classmethod            # 'self.field' -> spec text: the field holds exactly this value on return   # ghost outputs (name -> sort) a caller may bind with a hook 'x = ghost(name)'
 
 
 REGISTRY = {}
